@@ -302,8 +302,8 @@ func TestVerifC11(t *testing.T) { //nolint:gocognit,cyclop,maintidx
 	run.Assume("CreateOffer/CreateAnswer contain no verifhook.Point sites; interleavings come from real parallelism (GOMAXPROCS) plus " +
 		"seeded runtime.Gosched between calls; Perturb only affects the operations queue used by Set*Description")
 
-	n := kit.N(200, 5000)
-	run.Parallel(n, 4, func(i int) {
+	n := kit.N(200, 4000)
+	run.Parallel(n, kit.N(4, 8), func(i int) {
 		r := run.CaseRand(i)
 		a, b := rigMustPC(rigOpts{}), rigMustPC(rigOpts{})
 		defer rigClose(a, b)
